@@ -327,6 +327,8 @@ var ErrCut = errors.New("lab: connection cut")
 
 // Device holds the device-side secrets and credential.
 type Device struct {
+	// HmacFault, when set, makes the device's HMACs hardware-style (FaultyHmac) and is asked at every Sum
+	HmacFault func(op string) bool
 	Kind   keys.Kind
 	Enc    protocol.KeyEncoding
 	Key    crypto.Signer
@@ -343,7 +345,30 @@ func NewDevice(k keys.Kind, enc protocol.KeyEncoding, role string) *Device {
 
 // Hmacs returns fresh HMAC instances over the device secret.
 func (d *Device) Hmacs() (hash.Hash, hash.Hash) {
-	return hmac.New(sha256.New, d.Secret), hmac.New(sha512.New384, d.Secret)
+	h256, h384 := hash.Hash(hmac.New(sha256.New, d.Secret)), hash.Hash(hmac.New(sha512.New384, d.Secret))
+	if d.HmacFault != nil {
+		return &FaultyHmac{Hash: h256, Fail: d.HmacFault}, &FaultyHmac{Hash: h384, Fail: d.HmacFault}
+	}
+	return h256, h384
+}
+
+// FaultyHmac is a hardware-style HMAC: it offers the optional Err() method, and every Sum asks Fail whether the
+// hardware fails this time; a failed Sum returns its argument unchanged (no MAC) and the error stays readable through
+// Err() until the next Reset, as the TPM-backed implementation behaves.
+type FaultyHmac struct {
+	hash.Hash
+	Fail func(op string) bool
+	err  error
+}
+
+func (f *FaultyHmac) Err() error { return f.err }
+func (f *FaultyHmac) Reset()     { f.err = nil; f.Hash.Reset() }
+func (f *FaultyHmac) Sum(b []byte) []byte {
+	if f.Fail != nil && f.Fail("Sum") {
+		f.err = fmt.Errorf("verif: hardware HMAC failed to finalise")
+		return b
+	}
+	return f.Hash.Sum(b)
 }
 
 // DI runs the real device-initialisation client.
